@@ -48,6 +48,17 @@ CHECKS = {
          "bigint thrown out of safeParse). 'Points into the input' and 'rendering is total and deterministic' are decided by "
          "the Gallina predicate errors_ok / the model's print_errors evaluated on the implementation's errors (search).",
          "Path resolution spec (Model/RuntimeSpec.v) is our reading of 'addresses a position'; strings are printable ASCII."),
+ "C16": ("Theorems (all trees, environments, context states, fuels): C16_schema_independent_of_context — two successful contextual "
+         "prints of the same validator return the same JSON whatever is already collected or in progress (so every returned schema "
+         "and every stored definition body equals the one a fresh context prints); C16_print_preserves_context_invariant — a "
+         "successful print restores inProgressDefinitions, only adds definitions, never touches one that is in progress, and every "
+         "definition it adds is the contextual schema of the named type (or synthetic variant) it is stored under; hash() is proved "
+         "fuel-independent for the synthetic names. Order independence, $ref resolution and 'no definition left unfinished' are "
+         "additionally judged on the implementation over generated histories and their permutations against a fresh-context oracle "
+         "built from newly constructed validators.",
+         "The state after a throwing call is not modelled (the model stops there; the implementation is still judged and the known "
+         "finding after_throwing_call is reported); closure of the export under $ref (every reachable name collected) is checked on "
+         "generated histories, not proved; overrides and non-default templates are not generated."),
 }
 
 TECH = "machine-checked proof in Coq over an executable model + differential correspondence + spec-side search"
